@@ -133,14 +133,36 @@ def _state_contracts(T, Cond, Val, Binding, SeqB, Variable, sem):
       _locals=Locals, _condition=Cond, _locals_with_block_condition=Names))
   T.inline.add((STATE_PY, 'BlockState.__init__'))
 
+  VZ, ValZ = Variable.z3(), Val.z3()
+  hvp_f = z3.Function('hvp', VZ, ValZ, z3.IntSort(), z3.BoolSort())
+  hvanyp_f = z3.Function('hvanyp', VZ, ValZ, z3.IntSort(), z3.BoolSort())
+  anysem_f = z3.Function('anysem', VZ, z3.BoolSort())
+  wfv_f = z3.Function('wfv', VZ, z3.BoolSort())
+  _var = z3.Const('var', VZ)
+  _v = z3.Const('v', ValZ)
+  _m = z3.Const('m', z3.IntSort())
+  _k = z3.Const('k', z3.IntSort())
+  _j = z3.Const('j', z3.IntSort())
+  _bs = Variable.field('bindings', _var)
+  _b = SeqB.at(_bs, _k)
+  T.axioms += [
+      # definitional axioms of the spec functions (triggered on their applications)
+      z3.ForAll([_var, _v, _m], hvp_f(_var, _v, _m) == z3.Exists([_k], z3.And(
+          0 <= _k, _k < _m, Binding.field('value', _b) == _v, sem(Binding.field('condition', _b)))),
+                patterns=[hvp_f(_var, _v, _m)]),
+      z3.ForAll([_var, _v, _m], hvanyp_f(_var, _v, _m) == z3.Exists([_k], z3.And(
+          0 <= _k, _k < _m, Binding.field('value', _b) == _v)), patterns=[hvanyp_f(_var, _v, _m)]),
+      z3.ForAll([_var], anysem_f(_var) == z3.Exists([_k], z3.And(
+          0 <= _k, _k < SeqB.len(_bs), sem(Binding.field('condition', _b)))), patterns=[anysem_f(_var)]),
+      z3.ForAll([_var], wfv_f(_var) == z3.ForAll([_j, _k], z3.Implies(
+          z3.And(0 <= _j, _j < _k, _k < SeqB.len(_bs)),
+          Binding.field('value', SeqB.at(_bs, _j)) != Binding.field('value', _b))), patterns=[wfv_f(_var)]),
+  ]
+
   def hv(var_t, v_t, upto=None):
     """some binding of the variable has value v and a condition true under sigma."""
-    k = z3.FreshConst(z3.IntSort(), 'k')
     bs = Variable.field('bindings', var_t)
-    n = SeqB.len(bs) if upto is None else upto
-    b = SeqB.at(bs, k)
-    return z3.Exists([k], z3.And(0 <= k, k < n, Binding.field('value', b) == v_t,
-                                 sem(Binding.field('condition', b))))
+    return hvp_f(var_t, v_t, SeqB.len(bs) if upto is None else upto)
 
   def has_val(st, x_t, v_t):
     loc = st.fields['_locals'].t
@@ -149,10 +171,7 @@ def _state_contracts(T, Cond, Val, Binding, SeqB, Variable, sem):
                   z3.Implies(lw[x_t], sem(st.fields['_condition'].t)))
 
   def implies_cond(var_t, c_t):
-    k = z3.FreshConst(z3.IntSort(), 'k')
-    bs = Variable.field('bindings', var_t)
-    return z3.ForAll([k], z3.Implies(
-        z3.And(0 <= k, k < SeqB.len(bs), sem(Binding.field('condition', SeqB.at(bs, k)))), c_t))
+    return z3.Implies(anysem_f(var_t), c_t)
 
   def inv_I(st):
     loc = st.fields['_locals'].t
@@ -165,12 +184,7 @@ def _state_contracts(T, Cond, Val, Binding, SeqB, Variable, sem):
             implies_cond(Locals.get(loc, x), sem(st.fields['_condition'].t)))))
 
   def wfv(var_t):
-    j = z3.FreshConst(z3.IntSort(), 'j')
-    k = z3.FreshConst(z3.IntSort(), 'k')
-    bs = Variable.field('bindings', var_t)
-    return z3.ForAll([j, k], z3.Implies(
-        z3.And(0 <= j, j < k, k < SeqB.len(bs)),
-        Binding.field('value', SeqB.at(bs, j)) != Binding.field('value', SeqB.at(bs, k))))
+    return wfv_f(var_t)
 
   def wf_state(st):
     loc = st.fields['_locals'].t
@@ -188,7 +202,14 @@ def _state_contracts(T, Cond, Val, Binding, SeqB, Variable, sem):
             sem(Binding.field('condition', SeqB.at(b2, k))) == z3.And(
                 sem(Binding.field('condition', SeqB.at(b1, k))), c_t)))))
 
+  def hvany(var_t, v_t, upto=None):
+    bs = Variable.field('bindings', var_t)
+    return hvanyp_f(var_t, v_t, SeqB.len(bs) if upto is None else upto)
+
   B = lambda n, f: Builtin(n, f, needs_ex=True)
+  T.symbols['hvp'] = B('hvp', lambda ex, a, k, n: V(S.BOOL, hv(a[0].t, ex.coerce(a[1], Val).t, upto=ex.as_int(a[2]))))
+  T.symbols['hvany'] = B('hvany', lambda ex, a, k, n: V(S.BOOL, hvany(a[0].t, ex.coerce(a[1], Val).t)))
+  T.symbols['hvanyp'] = B('hvanyp', lambda ex, a, k, n: V(S.BOOL, hvany(a[0].t, ex.coerce(a[1], Val).t, upto=ex.as_int(a[2]))))
   T.symbols['hv'] = B('hv', lambda ex, a, k, n: V(S.BOOL, hv(a[0].t, ex.coerce(a[1], Val).t)))
   T.symbols['has_val'] = B('has_val', lambda ex, a, k, n: V(S.BOOL, has_val(a[0], ex.coerce(a[1], S.STR).t, a[2].t)))
   T.symbols['I'] = B('I', lambda ex, a, k, n: V(S.BOOL, inv_I(a[0])))
@@ -240,6 +261,70 @@ def _state_contracts(T, Cond, Val, Binding, SeqB, Variable, sem):
           ' and self._locals_with_block_condition == old(self._locals_with_block_condition)',
       ], index='i', seq='items')},
       ghost={'new_locals': Locals}))
+  _merge_contracts(T, Cond, Val, Variable, Locals, Names, self_obj)
+
+
+def _merge_contracts(T, Cond, Val, Variable, Locals, Names, self_obj):
+  from engine.values import NONE
+  fresh3 = 'fresh(result._locals) and fresh(result._locals_with_block_condition)'
+  T.add(Contract(
+      STATE_PY, 'BlockState.merge_into',
+      collections.OrderedDict(self=self_obj, other=('const', NONE)),
+      requires=['I(self)'],
+      ensures=[
+          'result._locals == self._locals', 'result._condition == self._condition',
+          'result._locals_with_block_condition == self._locals_with_block_condition',
+          fresh3, 'self._locals == old(self._locals)'],
+      instance={'other': 'None'}))
+  A1 = ('all(implies(x in locals_with_block_condition, x in locals_ and x in other._locals and x in self._locals'
+        ' and locals_[x] == self._locals[x] and self._locals[x] == other._locals[x]) for x in every("Str"))')
+  FR = ('sem(condition) == (sem(self._condition) or sem(other._condition))')
+  T.add(Contract(
+      STATE_PY, 'BlockState.merge_into',
+      collections.OrderedDict(self=self_obj, other=('obj', 'BlockState')),
+      requires=['I(self)', 'I(other)', 'wf_state(self)', 'wf_state(other)'],
+      ensures=[
+          'I(result)',
+          'all(all(has_val(result, x, v) == (has_val(self, x, v) or has_val(other, x, v))'
+          ' for v in every("Val")) for x in every("Str"))',
+          'wf_state(result)',
+          fresh3,
+      ],
+      loops={
+          0: Loop([
+              'all((x in locals_) == any(items[k][0] == x for k in range(i)) for x in every("Str"))',
+              A1,
+              'all(implies(x in locals_ and x not in locals_with_block_condition,'
+              ' all(hv(locals_[x], v) == has_val(self, x, v) for v in every("Val"))) for x in every("Str"))',
+              'all(implies(x in locals_ and x not in locals_with_block_condition,'
+              ' implies_cond(locals_[x], sem(self._condition))) for x in every("Str"))',
+              'all(implies(x in locals_ and x not in locals_with_block_condition, wfv(locals_[x])) for x in every("Str"))',
+              FR,
+          ], index='i', seq='items'),
+          1: Loop([
+              'all((x in locals_) == (x in self._locals or any(items2[k][0] == x for k in range(j))) for x in every("Str"))',
+              A1,
+              'all(implies(x in locals_ and x not in locals_with_block_condition,'
+              ' all(hv(locals_[x], v) == (has_val(self, x, v) or (any(items2[k][0] == x for k in range(j)) and has_val(other, x, v)))'
+              ' for v in every("Val"))) for x in every("Str"))',
+              'all(implies(x in locals_ and x not in locals_with_block_condition,'
+              ' implies_cond(locals_[x], sem(self._condition) or sem(other._condition))) for x in every("Str"))',
+              'all(implies(x in locals_ and x not in locals_with_block_condition, wfv(locals_[x])) for x in every("Str"))',
+              FR,
+          ], index='j', seq='items2'),
+          2: Loop([
+              'all((v in bindings) == (hvany(locals_[name], v) or hvanyp(var, v, m)) for v in every("Val"))',
+              'all(implies(v in bindings, sem(bindings[v]) == (hv(locals_[name], v) or hvp(var, v, m))) for v in every("Val"))',
+          ], index='m'),
+      },
+      ghost={'locals_': Locals, 'locals_with_block_condition': Names,
+             'bindings': S.DictOf(Val, Cond)},
+      instance={'other': 'BlockState'}))
+
+
+NATIVE_IN_QUICK = True   # 1-second bounded sweep on the real modules (labelled bounded, never counted as proved)
+SURROUND = ['pytype/rewrite/flow/frame_base.py (threads states through blocks)',
+            'pytype/rewrite/frame.py (builds the Variables that are stored; must keep binding values distinct: A-DISTINCT)']
 
 
 MUTANTS = [
